@@ -48,6 +48,10 @@ class ExprMixin:
             if isinstance(v.ty, T.Opt):
                 return T.sv_opt(ty.t, v.is_none, self.coerce(v.val, ty.t))
             return T.sv_opt(ty.t, z3.BoolVal(False), self.coerce(v, ty.t))
+        if ty == T.VOBJ and v.ty == T.INT:
+            return T.scalar(T.VOBJ, T.VObjS.oNode(v.t))         # a node stored in a table that also holds hyperedges
+        if ty == T.VOBJ and v.ty == T.TUP:
+            return T.scalar(T.VOBJ, T.VObjS.oEdge(v.t))
         if ty == T.REAL and v.ty in (T.INT, T.BOOL):
             return T.sv_real(T.to_real(v))
         if ty == T.XINT and v.ty in (T.INT, T.BOOL):
@@ -174,6 +178,10 @@ class ExprMixin:
 
     def member(self, x, c, p):
         """x in c"""
+        if c.ty == T.VNAME and x.ty == T.STR:
+            if "E" in self.strs and x.t.eq(self.strs["E"]):
+                return T.VNameS.is_vE(c.t)                   # 'E' in name: exactly the hyperedge names contain the letter
+            raise Unsupported("substring test on a vertex name other than 'E' in name")
         if isinstance(c.ty, T.Opt):
             if not self.spec_mode:
                 self._raise_if(p, c.is_none, "TypeError", "`in` on None")
@@ -479,6 +487,11 @@ class ExprMixin:
         return self.binop(e.op, l, r, p, f"line {getattr(e, 'lineno', '?')}")
 
     def binop(self, op, l, r, p, note):
+        if isinstance(op, ast.Add) and l.ty == T.STR and r.ty == T.STRINT:
+            for lit, ctor in (("N", T.VNameS.vN), ("E", T.VNameS.vE)):
+                if lit in self.strs and l.t.eq(self.strs[lit]):
+                    return T.scalar(T.VNAME, ctor(r.t))          # "N" + str(i), "E" + str(i)
+            raise Unsupported("string concatenation other than 'N' + str(i) / 'E' + str(i)")
         if isinstance(op, ast.Div) and all(isinstance(v.ty, T.Obj) and v.ty.cls == "NpArray2" for v in (l, r)):
             # matrix / column (numpy broadcasting): every cell of row i divided by the column's entry i; assumed library contract
             if not (z3.is_int_value(r.fields["_c"].t) and r.fields["_c"].t.as_long() == 1):
